@@ -6,7 +6,7 @@ from __future__ import annotations
 import ast
 import re
 
-from ..astutil import call_attr, calls_in, guard_facts, unparse, walk_local
+from ..astutil import call_attr, calls_in, guard_facts, rename_locals, roles_by_definition, unparse, walk_local
 from ..cfg import CFG
 from ..astutil import norm_facts, text_facts
 from ..dataflow import reaching_defs, resolved_text
@@ -70,6 +70,24 @@ def _raise_reached(facts, env: dict[str, bool]):
 
 def check(idx: Index, rep: Report, tier: str) -> str:
     f = idx.func(PM, "ParallelMovPattern.match_and_rewrite")
+    # the rules below name the locals of the lowering by their role; the roles are recognised by what the local is bound
+    # to, and the function is analysed with its locals renamed to the role names (so the spelling of locals is irrelevant)
+    opn0 = f.node.args.args[1].arg
+    CAST = r"(?:cast\([^,]+(?:\[.*\])?, )?"
+    roles = roles_by_definition(f.node, {
+        "srcs": rf"{CAST}{opn0}\.inputs\)?",
+        "dsts": rf"{CAST}{opn0}\.outputs\)?",
+        "src_types": rf"{CAST}{opn0}\.inputs\.types\)?",
+        "dst_types": rf"{CAST}{opn0}\.outputs\.types\)?",
+        "num_operands": rf"len\({opn0}\.operands\)|len\({opn0}\.inputs\)",
+        "results": r"\[None\] \* {num_operands}",
+        "free_registers": r"defaultdict\(list\)",
+        "leaves": r"set\({dst_types}\)",
+    })
+    if roles:
+        from ..srcindex import FuncInfo
+
+        f = FuncInfo(f.module, f.qualname, f.raw_node, f.cls, rename_locals(f.node, roles))
     cfg = CFG(f.node)
 
     # ---- R1 scratch provenance
@@ -240,7 +258,10 @@ def check(idx: Index, rep: Report, tier: str) -> str:
         raise AnalysisError(f"{f.fq}: edge-collection loop not found")
     w = loops[0]
     head = cfg.node_of(w)
-    disc = {cfg.node_of(c) for c in calls_in(w) if unparse(c) == "leaves.discard(src.type)"}
+    # the loop variable that ranges over the sources: the target paired with `srcs` in the zip
+    zargs = [unparse(a_) for a_ in w.iter.args] if isinstance(w.iter, ast.Call) else []
+    srcv = unparse(w.target.elts[zargs.index("srcs")]) if isinstance(w.target, ast.Tuple) and "srcs" in zargs and len(w.target.elts) == len(zargs) else "src"
+    disc = {cfg.node_of(c) for c in calls_in(w) if unparse(c) in (f"leaves.discard({srcv}.type)", f"leaves.difference_update({{{srcv}.type}})") or (unparse(c) == f"leaves.remove({srcv}.type)" and (f"{srcv}.type in leaves", True) in norm_facts(text_facts(f.node, c)))}
     starts = [m for m, lab in cfg.succ[head] if lab == "T"]
     # alternative: the sources are removed in bulk: leaves = set(dst_types) - {s.type for s in srcs} (or -= / difference_update)
     ALL_SRC_TYPES = (r"\{(\w+)\.type for \1 in srcs\}", r"set\(src_types\)", r"src_types", r"set\(\((\w+)\.type for \1 in srcs\)\)")
